@@ -350,7 +350,15 @@ def _check_stop_helpers(ctx, rep):
         while isinstance(first, ast.Call) and isinstance(first.func, ast.Name) and first.func.id == "bool" and len(first.args) == 1:
             first = first.args[0]
         cmps = [(t, pol, n) for t, pol, n in c.guards if isinstance(n, ast.Compare) and "eps_proj_physical" in t]
-        if isinstance(first, ast.Constant) and first.value in (True, False) and len(cmps) == 1:
+        # `True if c else False` is c (and `False if c else True` its negation)
+        flipped = False
+        while isinstance(first, ast.IfExp) and isinstance(first.body, ast.Constant) and isinstance(first.orelse, ast.Constant) \
+                and {first.body.value, first.orelse.value} == {True, False} and first.body.value is not first.orelse.value:
+            flipped ^= first.body.value is False
+            first = first.test
+        if isinstance(first, ast.Compare) and len(first.ops) == 1 and flipped:
+            verdicts.append((first, False))
+        elif isinstance(first, ast.Constant) and first.value in (True, False) and len(cmps) == 1:
             t, pol, n = cmps[0]
             # returned constant `first.value` when (n is pol)  ->  True exactly when n is (pol == first.value)
             verdicts.append((n, pol == first.value))
